@@ -98,3 +98,8 @@ package jrpc2
 // shared by every task of the source: it must not carry anything derived from
 // that caller's context (the per-step request counter travels in it).
 //@ detached (*Client).Latest props=C18
+
+// C18: the body of an HTTP request belongs to net/http until the exchange is
+// over (it may still be read after Do has returned): it is never handed to a
+// sync.Pool, from which another task's request would take it.
+//@ apart (*Client).do NewRequest Put props=C18
